@@ -4,6 +4,7 @@ import (
 	"go/constant"
 	"go/token"
 	"go/types"
+	"strings"
 
 	"golang.org/x/tools/go/ssa"
 )
@@ -288,7 +289,7 @@ type callSite struct {
 func (e *Engine) repoCallSites(pred func(ssa.CallInstruction) bool) []callSite {
 	var out []callSite
 	for _, f := range e.SrcFuncs(e.RepoOwned) {
-		if IsGenerated(e.File(f.Pos())) {
+		if IsGenerated(e.File(f.Pos())) || isTestSupportPkg(pkgPathOf(f)) {
 			continue
 		}
 		for _, c := range callsIn(f, false, pred) {
@@ -296,6 +297,11 @@ func (e *Engine) repoCallSites(pred func(ssa.CallInstruction) bool) []callSite {
 		}
 	}
 	return out
+}
+
+// isTestSupportPkg: packages that exist only to support tests (not imported by the node binary).
+func isTestSupportPkg(p string) bool {
+	return strings.Contains(p, "/integration_test_util") || strings.Contains(p, "/testutil") || strings.HasSuffix(p, "/testutils")
 }
 
 func topFn(f *ssa.Function) *ssa.Function {
